@@ -104,7 +104,7 @@ static void export_roundtrip(hwloc_topology_t t, const char *desc, int contract_
     /* reload */
     hwloc_topology_t t2; int e2;
     int rc = load_syn(&t2, buf, 1, &e2);
-    const char *sfx = (fl & (HWLOC_TOPOLOGY_EXPORT_SYNTHETIC_FLAG_NO_EXTENDED_TYPES | HWLOC_TOPOLOGY_EXPORT_SYNTHETIC_FLAG_V1)) ? ".compat" : "";
+    const char *sfx = (fl & (HWLOC_TOPOLOGY_EXPORT_SYNTHETIC_FLAG_NO_EXTENDED_TYPES | HWLOC_TOPOLOGY_EXPORT_SYNTHETIC_FLAG_V1)) ? ".compat" : (fl & HWLOC_TOPOLOGY_EXPORT_SYNTHETIC_FLAG_IGNORE_MEMORY) ? ".nomem" : "";
     char key[96];
     if (rc < 0) { snprintf(key, sizeof(key), "c07.export.reload%s", sfx); mc_violation(key, "%s :: export flags %#lx gives \"%s\" which does not load (rc %d errno %d)", desc, fl, buf, rc, e2); continue; }
     int attrs = !(fl & HWLOC_TOPOLOGY_EXPORT_SYNTHETIC_FLAG_NO_ATTRS);
